@@ -6,7 +6,7 @@ without it.  Writes seeded/<name>/verify.json; the worktree is removed at the en
 import json, os, re, subprocess, sys, time
 
 VERIF = os.path.dirname(os.path.dirname(os.path.abspath(__file__)))
-WT = "/tmp/wt_verify_seeds"
+WT = os.environ.get("VF_VERIFY_WT", "/tmp/wt_verify_seeds")
 
 
 def sh(cmd, cwd=None, timeout=3600):
